@@ -420,6 +420,16 @@ def run_nuts(case):
             np.random.seed(54321)
             np.random.rand(7)
             again = np.asarray(nuts(n_iter, p0.copy(), tfn, gfn, **kw))
+            # the same target, but its gradient function keeps the arrays it hands out (a constant gradient stored
+            # once, a memoised gradient): the sampler reads them, it does not own them
+            memo = {}
+
+            def keeping(x):
+                k = np.asarray(x, dtype=float).tobytes()
+                if k not in memo:
+                    memo[k] = (np.array(x, dtype=float, copy=True), np.asarray(gfn(np.array(x, dtype=float, copy=True))))
+                return memo[k][1]
+            kept = np.asarray(nuts(n_iter, p0.copy(), tfn, keeping, **kw))
     except SystemExit as e:
         return bad('C09:nuts:SystemExit-instead-of-states', {'message': str(e)[:300]})
     info = {'returned': _fmt(got[:6])}
@@ -430,7 +440,16 @@ def run_nuts(case):
     v = _finite_target_violation('C09:nuts', tname, got)
     if v:
         return v
+    with np.errstate(all='ignore'):
+        for pt, arr in memo.values():
+            fresh = np.asarray(gfn(pt.copy()))
+            if arr.shape != fresh.shape or not np.array_equal(arr, fresh, equal_nan=True):
+                return bad('C09:nuts:gradient-array-handed-out-by-the-target-was-modified',
+                           dict(info, point=_fmt(pt), gradient=_fmt(fresh), left_as=_fmt(arr)))
+    if kept.shape != got.shape or kept.tobytes() != got.tobytes():
+        return bad('C09:nuts:chain-differs-when-the-target-keeps-its-gradient-arrays', dict(info, other=_fmt(kept[:6])))
     return ok(outcome=hashlib.md5(got.tobytes()).hexdigest() + str(got.shape), trivial=False,
+              nuts_gradient_arrays_kept=len(memo),
               nuts_runs_that_moved=int(np.any(got != p0)), nuts_distinct_states=len({r.tobytes() for r in got}),
               nuts_states=n_iter, nuts_target_calls=calls[0], nuts_target_calls_outside_support=calls[1])
 
